@@ -11,12 +11,14 @@ from harness import common, tlc
 
 CFG = """CONSTANTS Shapes <- MCShapes
  MaxOps = %d
+ ShareOnReplace = %s
 SPECIFICATION Spec
 %s
 INVARIANT TypeOK
 INVARIANT ExactCollapse
 INVARIANT DeserLaw
 INVARIANT ExcludeUnsetSound
+PROPERTY OrigFrozen
 INVARIANT EmitHist
 """
 
@@ -93,7 +95,7 @@ def run_ops(shape: dict, ops: List[dict]) -> dict:
 
     mod = build(shape)
     K = mod.K
-    obj = None
+    obj = orig_obj = None
     flat = {f["name"] for f in shape["fields"] if f["kind"] == "flat"}
 
     def val(n, x):
@@ -117,11 +119,13 @@ def run_ops(shape: dict, ops: List[dict]) -> dict:
             elif op["op"] == "unset_fields":
                 unset_fields(obj, *names)
             elif op["op"] == "replace":
-                obj = replace(obj, **{n: val(n, 3) for n in names})
+                orig_obj, obj = obj, replace(obj, **{n: val(n, 3) for n in names})
         if shape.get("generic"):      # the parametrised form must behave as the class
             if sorted(serialize(K[int], obj)) != sorted(serialize(K, obj)):
                 return {"exc": f"serialize(K[int], obj) keys {sorted(serialize(K[int], obj))} differ from serialize(K, obj) {sorted(serialize(K, obj))}"}
-        return {"fs": sorted(fields_set(obj)), "keys_unset": sorted(serialize(K, obj)),
+        return {"orig_fs": None if orig_obj is None else sorted(fields_set(orig_obj)),
+                "orig_keys_unset": None if orig_obj is None else sorted(serialize(K, orig_obj)),
+                "fs": sorted(fields_set(obj)), "keys_unset": sorted(serialize(K, obj)),
                 "keys_unset_untyped": sorted(serialize(obj)),
                 "keys_all": sorted(serialize(K, obj, exclude_unset=False))}
     except Exception as exc:
@@ -143,6 +147,14 @@ def verdict(case: dict, out: dict) -> str:
             return "fields_set"
         if set(out["keys_unset"]) != got & set(case["keys_all"]):
             return "exclude_unset"
+    # the instance replace() was called on keeps the set it had, whatever was done to the copy afterwards
+    if case.get("orig", {}).get("has") and out.get("orig_fs") is not None:
+        ofs, olo = set(case["orig"]["fs"]), set(case["orig"]["lo"])
+        og = set(out["orig_fs"])
+        if (og != ofs) if case["exact"] else not (olo <= og <= ofs):
+            return "original-after-replace"
+        if case["exact"] and set(out["orig_keys_unset"]) != ofs & set(case["keys_all"]):
+            return "original-after-replace"
     if set(out["keys_all"]) != set(case["keys_all"]):
         return "exclude_unset_false"
     return "ok"
@@ -165,18 +177,24 @@ def main() -> int:
     states = trans = replayed = 0
     distinct = set()
     # design laws over every history up to the bound (history hidden)
-    r = tlc.run_tlc("MC_FieldsSet", CFG % (3 if thorough else 2, "VIEW View"), workers=16, env={"EMIT": "0"}, timeout_s=3000)
+    r = tlc.run_tlc("MC_FieldsSet", CFG % (3 if thorough else 2, "FALSE", "VIEW View"), workers=16, env={"EMIT": "0"}, timeout_s=3000)
     states += r.distinct
     trans += r.states
     if r.violated:
         rep.violation(f"TLC: {r.violated} violated by the fields-set model", {"trace": r.error_trace[:60]})
+    # negative check: a replace() that hands the original's set object to the copy must violate OrigFrozen
+    rn = tlc.run_tlc("MC_FieldsSet", CFG % (2, "TRUE", "VIEW View"), workers=16, env={"EMIT": "0"}, timeout_s=3000)
+    states += rn.distinct
+    rep.set("negative_checks", {"shareonreplace": bool(rn.violated)})
+    if not rn.violated:
+        rep.violation("negative check: the deviation ShareOnReplace does not violate OrigFrozen (vacuous law)", {})
     # every operation sequence (construction + up to N operations), replayed step by step
-    r = tlc.run_tlc("MC_FieldsSet", CFG % (2 if thorough else 1, ""), workers=16, env={"EMIT": "1"}, timeout_s=3000)
+    r = tlc.run_tlc("MC_FieldsSet", CFG % (2 if thorough else 1, "FALSE", ""), workers=16, env={"EMIT": "1"}, timeout_s=3000)
     states += r.distinct
     trans += r.states
     cases = parse(r.prints)
     # plus long random sequences
-    r2 = tlc.run_tlc("MC_FieldsSet", CFG % (8, ""), workers=4, env={"EMIT": "1"},
+    r2 = tlc.run_tlc("MC_FieldsSet", CFG % (8, "FALSE", ""), workers=4, env={"EMIT": "1"},
                      simulate=f"num={3000 if thorough else 600}", depth=10, seed=common.seed() + 5, timeout_s=3000)
     cases += parse(r2.prints)
     for c in cases:
